@@ -136,3 +136,25 @@ Definition m_init_sketch (m : mstate) (cap : Z) : mstate :=
 
 (* ---- the audit view compared with the implementation *)
 Definition sum_weights (p : policy) (ids : list Z) : Z := sumZ (map (fun id => pweight (node_of p id)) ids).
+
+(* ---- a maintenance run in two parts, for index actions that land inside it: the drain of the two
+   buffers, then expiration / eviction / climb.  [m_maintenance] is the second applied to the first
+   (PolicyInv.m_maintenance_split). *)
+Definition m_maint_pre (hashf : Z -> Z -> Z) (cur : Z -> Z) (m : mstate) : mstate * list Z :=
+  let m1 := if skip_read_buffer m then m
+            else with_rbuf (fold_left (m_on_access hashf cur) (rbuf m) m) [] in
+  m_run_tasks hashf cur (with_wbuf m1 []) (wbuf m1) [].
+
+Definition m_maint_post (hashf : Z -> Z -> Z) (cur : Z -> Z) (rnd now adj : Z) (m2 : mstate) : mstate * list Z * list Z :=
+  let '(m3, expired) :=
+    if m_expire m2 then
+      let '(w, ids) := wheel_delete_expired cur (whl m2) now in
+      (m_evict_all (with_whl m2 w) ids, ids)
+    else (m2, []) in
+  let '(m4, evicted) :=
+    if m_evict m3 then
+      let '(p, ids) := pol_evict_nodes hashf rnd (pol m3) in
+      (fold_left (fun mm id => if m_expire mm then with_whl mm (wheel_delete (whl mm) id) else mm) ids (with_pol m3 p), ids)
+    else (m3, []) in
+  let m5 := if m_evict m4 then with_pol m4 (fst (pol_climb_adj adj (pol m4))) else m4 in
+  (m5, expired, evicted).
